@@ -6,7 +6,7 @@ import (
 	"context"
 	"time"
 
-	"github.com/whoisnian/glb/zzverif/vsched"
+	"verif/engine/shim/vsched"
 )
 
 type Context interface {
